@@ -20,6 +20,7 @@ tvars == << ivars, l, lostp, viol >>
 
 TraceCtx == 0..(atoi(IOEnv.MAXN) - 1)
 TraceNone == -1
+TraceNoSym == {}      \* TLC evaluates constant definitions eagerly: Permutations(Ctx) is factorial in the number of contexts
 TraceLanes == atoi(IOEnv.NLANES)
 TraceSb == atoi(IOEnv.SBTHR)
 TraceB == atoi(IOEnv.BLOCK)
